@@ -55,10 +55,25 @@ func init() {
 	// vpNondetInt(name, lo, hi) int  -- lo <= v <= hi
 	vpAPI["vpNondetInt"] = func(e *Engine, st *State, args []Value, fn *ssa.Function) []Outcome {
 		name := e.mustConcStr(args[0])
+		lo, hi := args[1].(*Term), args[2].(*Term)
+		if lo.IsConst() && hi.IsConst() && hi.SVal() >= lo.SVal() && uint64(hi.SVal()-lo.SVal()) < 1<<40 {
+			// structural range: lo + zero-extended narrow variable (so the value range is visible to the simplifier)
+			span := uint64(hi.SVal() - lo.SVal())
+			bits := 1
+			for (uint64(1)<<uint(bits))-1 < span {
+				bits++
+			}
+			nv := e.tb.Fresh(name, bits)
+			st.log = append(st.log[:len(st.log):len(st.log)], LogEntry{Name: name, Kind: "offset", T: []*Term{nv}, Strs: []string{strconv.FormatInt(lo.SVal(), 10)}})
+			if (uint64(1)<<uint(bits))-1 != span {
+				st.assume(e.tb.Cmp(OpULe, nv, e.tb.Const(bits, span)))
+			}
+			return one(st, e.tb.Bin(OpAdd, e.tb.ZExt(nv, 64), lo))
+		}
 		v := e.tb.Fresh(name, 64)
 		st.log = append(st.log[:len(st.log):len(st.log)], LogEntry{Name: name, Kind: "i64", T: []*Term{v}})
-		st.assume(e.tb.Cmp(OpSLe, args[1].(*Term), v))
-		st.assume(e.tb.Cmp(OpSLe, v, args[2].(*Term)))
+		st.assume(e.tb.Cmp(OpSLe, lo, v))
+		st.assume(e.tb.Cmp(OpSLe, v, hi))
 		if e.solver.Check(st.pc) == Unsat {
 			return nil
 		}
